@@ -4,9 +4,12 @@ package props
 
 import (
 	"fmt"
+	"github.com/pentops/j5/internal/bcl/genlsp"
 	"os"
+	"sort"
 	"strings"
 	"unicode"
+	"unicode/utf8"
 
 	"github.com/pentops/j5/internal/bcl"
 	"github.com/pentops/j5/internal/verifh/rt"
@@ -14,7 +17,16 @@ import (
 
 func init() {
 	Registry["C09"] = func(r *rt.Runner) { runFmtProps(r, c09Check) }
-	Registry["C19"] = func(r *rt.Runner) { runFmtProps(r, c19Check) }
+	Registry["C19"] = func(r *rt.Runner) {
+		// the same document with CRLF line ends (what an editor on another platform sends) is judged for C19 only:
+		// edits and formatter must still agree
+		runFmtProps(r, func(c *rt.C, x string, class string) {
+			c19Check(c, x, class)
+			if strings.Contains(x, "\n") && c.Rand().Intn(4) == 0 {
+				c19Check(c, strings.ReplaceAll(x, "\n", "\r\n"), "crlf")
+			}
+		})
+	}
 }
 
 func firstDiff(a, b string) string {
@@ -231,9 +243,78 @@ func c19Check(c *rt.C, x string, class string) {
 		det["applied"] = got
 		c.Violate("edits/result-differs", fmt.Sprintf("applying the edits to %q does not give the formatter's output: %s", rt.Clip(x, 300), firstDiff(trimTrailingBlank(got), trimTrailingBlank(y))), det)
 	}
+	// the same edits as the language server hands them to an editor (LSP ranges, applied the way the protocol
+	// says: a position past the last line means the end of the document)
+	var lsp []genlsp.VerifTextEdit
+	ok, pv, fn, st = rt.Guard(func() { lsp, err = genlsp.VerifFormat(x) })
+	if !ok {
+		det["stack"] = st
+		c.Violate("lsp-panic/"+fn, fmt.Sprintf("the language server's formatter panicked on %q: %v", rt.Clip(x, 300), pv), det)
+		return
+	}
+	if err != nil {
+		c.Violate("lsp/fails", fmt.Sprintf("the language server's formatter fails on input the formatter accepts %q: %v", rt.Clip(x, 300), err), det)
+		return
+	}
+	c.Event("lsp_edit_lists_applied")
+	if gotLSP := applyLSPEdits(x, lsp); trimTrailingBlank(gotLSP) != trimTrailingBlank(y) {
+		det["applied_lsp"] = gotLSP
+		c.Violate("lsp-edits/result-differs", fmt.Sprintf("applying the language server's text edits to %q does not give the formatter's output: %s", rt.Clip(x, 300), firstDiff(trimTrailingBlank(gotLSP), trimTrailingBlank(y))), det)
+	}
 	if c.WantSample() && len(edits) > 1 {
 		c.Sample(map[string]any{"input": x, "edits": es, "class": class})
 	}
+}
+
+// applyLSPEdits applies text edits with LSP semantics: positions are (line, UTF-16 character); a line past the
+// end of the document denotes its end; edits refer to the original document and do not overlap.
+func applyLSPEdits(x string, edits []genlsp.VerifTextEdit) string {
+	starts := []int{0}
+	for i := 0; i < len(x); i++ {
+		if x[i] == '\n' {
+			starts = append(starts, i+1)
+		}
+	}
+	off := func(line, char uint32) int {
+		if int(line) >= len(starts) {
+			return len(x)
+		}
+		o := starts[line]
+		end := len(x)
+		if int(line)+1 < len(starts) {
+			end = starts[line+1] - 1
+		}
+		// characters are UTF-16 code units
+		units := uint32(0)
+		for o < end && units < char {
+			r, size := utf8.DecodeRuneInString(x[o:])
+			if r >= 0x10000 {
+				units += 2
+			} else {
+				units++
+			}
+			o += size
+		}
+		return o
+	}
+	type span struct {
+		from, to int
+		text     string
+	}
+	var spans []span
+	for _, e := range edits {
+		spans = append(spans, span{off(e.StartLine, e.StartChar), off(e.EndLine, e.EndChar), e.NewText})
+	}
+	sort.SliceStable(spans, func(i, j int) bool { return spans[i].from < spans[j].from })
+	out := x
+	for i := len(spans) - 1; i >= 0; i-- {
+		sp := spans[i]
+		if sp.to < sp.from {
+			sp.to = sp.from
+		}
+		out = out[:sp.from] + sp.text + out[sp.to:]
+	}
+	return out
 }
 
 // runFmtProps drives C09 and C19 over the same space of inputs.
